@@ -134,7 +134,7 @@ engine starting new, at positions of the domain -/
 theorem verdict_sound_restr (hR : Restr g S IM) (hO : RestrOK g S IM)
     (hin : ∀ p, S 0 p → g.over p = false → -Facts.winThreshold ≤ g.eval p ∧ g.eval p ≤ Facts.winThreshold)
     (hlive : ∀ p, S 1 p → g.over p = false → kids g p ≠ [])
-    (hconst : ∀ k j p, S k p → S j p) (hinj : HashInjOn g (S 0))
+    (hconst : ∀ k j p, S k p → S j p) (hinj : HashOKOn g (S 0))
     {cfg : Cfg} (hpr : Precise cfg.opts) (h : History P M) (hh : ∀ x ∈ h, OrderOK x.2 ∧ S 0 x.1) :
     Sat (runCalls g cfg h (Eng.new g cfg)) (fun x =>
       EngGood IM x.2 ∧
@@ -146,7 +146,7 @@ theorem verdict_sound_restr (hR : Restr g S IM) (hO : RestrOK g S IM)
     have := hh _ (histVal_mem hx)
     exact ⟨this.1, hconst _ _ _ this.2⟩
   have hgen := runCalls_sound (gameOK_restrict hR hO)
-    (evalOK_restrict hR hin (fun p hp => hconst _ _ _ hp) hlive) (hashInj_restrict (IM := IM) hinj) hpr h'
+    (evalOK_restrict hR hin (fun p hp => hconst _ _ _ hp) hlive) (hashOK_restrict hR hconst hinj) hpr h'
     (Eng.new (g.restrict (S 0) IM) cfg) (fun x hx => (hh' x hx).1) (tableSound_new cfg)
   intro x hx
   obtain ⟨rs, s2⟩ := x
@@ -166,7 +166,7 @@ theorem verdict_sound_restr (hR : Restr g S IM) (hO : RestrOK g S IM)
 theorem verdict_complete_restr (hR : Restr g S IM) (hO : RestrOK g S IM)
     (hin : ∀ p, S 0 p → g.over p = false → -Facts.winThreshold ≤ g.eval p ∧ g.eval p ≤ Facts.winThreshold)
     (hlive : ∀ p, S 1 p → g.over p = false → kids g p ≠ [])
-    (hconst : ∀ k j p, S k p → S j p) (hinj : HashInjOn g (S 0))
+    (hconst : ∀ k j p, S k p → S j p) (hinj : HashOKOn g (S 0))
     {cfg : Cfg} (hpr : Precise cfg.opts) (h : History P M) (hh : ∀ x ∈ h, OrderOK x.2 ∧ S 0 x.1)
     (hmono : ∀ x ∈ h, x.2.Monotone) (p : P) (hp : S 0 p) (hov : g.over p = false) {o : Oracle M} (hnc : NoCancel o)
     (hord' : OrderOK o) (rs : List (P × Int)) (s : Eng M) (r : List M × Int × Stats) (s' : Eng M)
@@ -182,7 +182,7 @@ theorem verdict_complete_restr (hR : Restr g S IM) (hO : RestrOK g S IM)
   obtain ⟨rs', e1, _, hgood⟩ := runCalls_sim hR cfg hpr.nn h' _ hh' (engGood_new hR cfg) rs s h1
   obtain ⟨e2, _⟩ := analyze_sim hR cfg hpr.nn o hord' ⟨p, hp⟩ (hconst _ _ _ hp) s hgood
   have hgen := runCalls_then_complete (gameOK_restrict hR hO)
-    (evalOK_restrict hR hin (fun p hp => hconst _ _ _ hp) hlive) (hashInj_restrict (IM := IM) hinj) hpr h'
+    (evalOK_restrict hR hin (fun p hp => hconst _ _ _ hp) hlive) (hashOK_restrict hR hconst hinj) hpr h'
     (fun x hx => (hh' x hx).1) (fun x hx => hmono _ (histVal_mem hx)) ⟨p, hp⟩ hov hnc hord' rs' s r s'
     e1 (by rw [e2]; exact h2)
   rw [negamax_restrict hR _ ⟨p, hp⟩ (hconst _ _ _ hp)] at hgen
